@@ -159,7 +159,8 @@ class Process(StateMachine, persistence.Savable, metaclass=ProcessStateMachineMe
     _paused: Optional[persistence.SavableFuture] = None
     _killing: Optional[futures.CancellableAction] = None
     _interrupt_action: Optional[futures.CancellableAction] = None
-    _stale_interruption: Optional[process_states.Interruption] = None
+    # Interruptions whose request was withdrawn or already carried out, but which can still come out of the state
+    _stale_interruptions: Tuple[process_states.Interruption, ...] = ()
     _closed = False
     _cleanups: Optional[List[Callable[[], None]]] = None
 
@@ -1229,7 +1230,7 @@ class Process(StateMachine, persistence.Savable, metaclass=ProcessStateMachineMe
             if self._pausing is not None:
                 # Not going to pause after all. The interruption may already have been delivered to the state, in which
                 # case ``step`` has to ignore it when it comes out
-                self._stale_interruption = self._pausing.cookie
+                self._stale_interruptions += (self._pausing.cookie,)
                 self._pausing.cancel()
                 self._pausing = None
                 self._set_interrupt_action(None)
@@ -1378,7 +1379,10 @@ class Process(StateMachine, persistence.Savable, metaclass=ProcessStateMachineMe
                 # stale and the state simply gets executed again. The action may belong to a later request than the
                 # interruption that came out (the state can only be interrupted once), the latest request is what
                 # counts. If the interruption comes from elsewhere build the action for it.
-                if exception is not self._stale_interruption and self._interrupt_action is None:
+                if any(exception is stale for stale in self._stale_interruptions):
+                    # A state can only be interrupted once, so nothing that was recorded earlier can come out anymore
+                    self._stale_interruptions = ()
+                elif self._interrupt_action is None:
                     self._set_interrupt_action_from_exception(exception)
 
             except KeyboardInterrupt:
@@ -1415,7 +1419,7 @@ class Process(StateMachine, persistence.Savable, metaclass=ProcessStateMachineMe
                 # A pause or kill was requested by a callback during the transition, carry it out right away. The new
                 # state has been interrupted for it, which has to be ignored when the state gets executed.
                 action = self._interrupt_action
-                self._stale_interruption = action.cookie
+                self._stale_interruptions += (action.cookie,)
                 action.run(None)
 
         finally:
